@@ -158,6 +158,13 @@ def c22_named():
         Lam(["a"], Call("tagged", a, L.Str("v"))),
         Call("call", Lam(["a"], Call("tagged", a, L.Str("v"))), L.Str("k")),
         Call("typed", L.Str("zzz"), L.QLit(L.Keyed("k"))),
+        # a trailing argument that is a nested lambda using the OUTER parameter only inside a call in FUNCTION position
+        # (the right-hand stage of a pipeline): the outer lambda must not be eta-reduced away
+        Call("call", Lam(["c"], Call("applyto", L.Sym("c"), Lam(["a"], Call(Call("sub", L.Sym("c")), a)))), Lit(5)),
+        Call("call", Lam(["c"], Call("call", Lam(["c"], Call("applyto", L.Sym("c"), Lam(["a"], Call(Call("sub", L.Sym("c")), a)))),
+                                     Lit(5))), Lit(9)),
+        Lam(["c"], Call("applyto", L.Sym("c"), Lam(["a"], Call(Call("sub3", L.Sym("c"), a), a)))),
+        Call("call", Lam(["c"], Call("applyto", L.Sym("c"), Lam(["a"], Call("sub", a, L.Sym("c"))))), Lit(5)),   # argument position
     ]
 
 
